@@ -436,6 +436,94 @@ pub fn run(ctx: &Ctx) -> Rep {
     let (r4, x4) = merge_states(s4);
     rep.merge(r4);
 
+    // ---- (4b) long texts: more tokens than there are cards ------------------------------------------------
+    {
+        let mut st = St { rep: Rep::new(), x: mk(), cur: [0; 8], cur_len: 0, cur_what: "" };
+        let mut rng = Rng::new(seed, 0xC12_4B00);
+        let card_tok = |i: u8| format!("{}{}", model::RANK_CHARS[model::rank_of(i) as usize], ['s', 'h', 'd', 'c'][model::suit_of(i) as usize]);
+        let mut texts: Vec<String> = Vec::new();
+        for lead in [52usize, 53, 60, 100, 300] {
+            // `lead` blank tokens (or repeats of one card), then a card that has not appeared yet
+            texts.push(format!("{} 2c", vec!["xx"; lead].join(" ")));
+            texts.push(format!("{} Kh", vec!["As"; lead].join(" ")));
+        }
+        texts.push((0..52u8).map(|i| format!("{0} {0}", card_tok(i))).collect::<Vec<_>>().join(" ")); // every card named twice
+        texts.push((0..52u8).map(|i| format!("zz {}", card_tok(i))).collect::<Vec<_>>().join(" ")); // a blank between cards
+        texts.push((0..52u8).rev().map(card_tok).chain((0..52u8).map(card_tok)).collect::<Vec<_>>().join("\t"));
+        for _ in 0..ctx.pick(3, 300, 3000) {
+            let n = 40 + rng.below(200) as usize;
+            let mut v: Vec<String> = Vec::new();
+            for _ in 0..n {
+                v.push(if rng.chance(1, 3) { "??".to_string() } else { card_tok(rng.below(52) as u8) });
+            }
+            texts.push(v.join(" "));
+        }
+        for t in &texts {
+            check_text(&mut st, t);
+        }
+        st.rep.add("texts_with_more_than_52_tokens", texts.len() as u64);
+        st.rep.distinct += texts.len() as u64;
+        let x = st.x;
+        rep.merge(st.rep);
+        rep.set_max("max.longest_text_bytes", x.longest);
+    }
+
+    // ---- (4c) token sequences: a token right after a look-alike ------------------------------------------
+    // Parsing a token must not depend on what was parsed before. For every valid two-symbol token t and every
+    // "alias" of it (a character whose code point agrees with the symbol in its low 8 or 16 bits, from other
+    // planes; the other case; a neighbouring code point) the calls run  t, alias, t, alias  with every result
+    // checked against the model - single-threaded, so that nothing else is parsed in between.
+    {
+        let mut st = St { rep: Rep::new(), x: mk(), cur: [0; 8], cur_len: 0, cur_what: "" };
+        let aliases = |c: char| -> Vec<char> {
+            let u = c as u32;
+            let mut v: Vec<char> = Vec::new();
+            for k in 1..=16u32 {
+                v.extend(char::from_u32(u + (k << 16)));
+                v.extend(char::from_u32((u & 0xFFFF) | (k << 16)));
+            }
+            for k in 1..=8u32 {
+                v.extend(char::from_u32(u + (k << 8)));
+                v.extend(char::from_u32((u & 0xFF) | (k << 8)));
+            }
+            v.extend(char::from_u32(u + 1));
+            v.extend(char::from_u32(u.wrapping_sub(1)));
+            v.extend(char::from_u32(u ^ 0x20));
+            v.retain(|&a| a != c && !a.is_whitespace());
+            v.sort_unstable();
+            v.dedup();
+            v
+        };
+        let ranks: Vec<char> = "AaKkQqJjTt098765432".chars().collect();
+        let suits: Vec<char> = "SsHhDdCc♠♤♥♡♦♢♣♧".chars().collect();
+        let step = if ctx.smoke() { 5 } else { 1 };
+        let mut seqs = 0u64;
+        for &r in ranks.iter().step_by(step) {
+            for &s in suits.iter().step_by(step) {
+                let t: String = [r, s].iter().collect();
+                let mut variants: Vec<String> = Vec::new();
+                for a in aliases(r) {
+                    variants.push([a, s].iter().collect());
+                }
+                for a in aliases(s) {
+                    variants.push([r, a].iter().collect());
+                }
+                for v in &variants {
+                    check_token(&mut st, &t);
+                    check_token(&mut st, v);
+                    check_token(&mut st, &t);
+                    check_token(&mut st, v);
+                    // and inside one hand text
+                    check_text(&mut st, &format!("{} {}", t, v));
+                    check_text(&mut st, &format!("{} {} {} {} {}", v, t, v, t, v));
+                    seqs += 1;
+                }
+            }
+        }
+        st.rep.add("look_alike_token_sequences", seqs);
+        rep.merge(st.rep);
+    }
+
     // ---- (5) round trip of the two renderings of every card -----------------------------------
     for i in 0..52u8 {
         let w = model::word(i);
@@ -508,7 +596,7 @@ pub fn run(ctx: &Ctx) -> Rep {
     rep.rule = format!(
         "all 1,112,064 scalar values through both symbol tables and as first/second character of a token; all pairs over a {}-character alphabet \
          (all 35 symbols, separators, multi-byte, combining, NUL, U+10FFFF) x 6 tails through every text entry point; hand texts with 0..9 tokens for each of the {} \
-         Unicode white-space characters as separator; {} seeded texts; 104 renderings. distinct = scalars + hash-set count of the texts (bounded prefix of the seeded ones)",
+         Unicode white-space characters as separator; {} seeded texts; texts of 53..300 tokens; every valid token interleaved with its look-alikes (same low 8/16 code-point bits, other case, neighbours); 104 renderings. distinct = scalars + hash-set count of the texts (bounded prefix of the seeded ones)",
         alpha.len(),
         ws.len(),
         n_rand
